@@ -11,10 +11,10 @@ def check_doc(args):
 
 INV = ['C01_RoundTrip', 'C02_Structure', 'C03_Search', 'OutcomeIsDiagnostic']
 BUILTIN = ['verbatim', 'lstlisting', 'verbatimtab', 'Verbatim', 'listing']
-USER = ['myverb', 'code*', 'align*']        # align* is also a math environment name: the option wins
+USER = ['myverb', 'code*', 'align*', 'my code']        # align* is also a math environment name: the option wins
 BODIES = ['x', ' $ { ', '\n\\a{\n', '}', 'a]', 'b[', '$', '$$x', '\\begin{e}', '\\end{e}', '\\begin{verbatim}', '%c\nd', 'a\\end{e}b',
           '\\item', '\\(', '\\end', '\\end{', ' \\end {e} ', '\\a{y}', 'x\\\\', '\\end{verbatimx}', '\\[', '\n', ' ', '\\end{ e}', '\\end{$}',
-          '\\end{itemize', '\\begin{itemize}\\item', 'a%{\r', '%c\r\nd', ' a_{1 \\textbf{x $ [ ']
+          '\\end{itemize', '\\begin{itemize}\\item', 'a%{\r', '%c\r\nd', 'x = \\left', 'w \\verb|\n', 'a | b', ' a_{1 \\textbf{x $ [ ']
 # in scope by the letter of the property (the body does not START with a brace / bracket) but read as options today:
 FINDING_BODIES = ['\n{x}y', ' [', '\n{ "a": 1']
 NAMES = ['a', 'e', 'begin', 'end', 'item', 'itemize']
